@@ -151,6 +151,11 @@ func (s *scanner) Reset(reader io.ReadSeeker) error {
 		return err
 	}
 	s.sx.Init(reader)
+	s.sx.Error = func(_ *sc.Scanner, msg string) {
+		if s.err == nil {
+			s.err = errors.New(msg)
+		}
+	}
 	s.sx.Mode = sc.ScanIdents | sc.ScanChars | sc.ScanStrings | sc.ScanRawStrings | sc.ScanComments | sc.SkipComments
 	return nil
 }
